@@ -18,6 +18,19 @@ CLAIMED = {
              "(generated times are dyadic so it is). Termination of user callbacks that re-insert forever is not claimed (fuel).",
         technique="Lean 4 proof (induction over the event loop) + trace-equality correspondence with the real class",
         design='6/C20'),
+    'C01': dict(
+        text=("Lean theorems about the model of the Fourier-transform objects (the same polymorphic definitions run in the driver): the full FastFourierTransform forward/backward pipeline — weights, piston removal, pad, ifftshift, DFT, fftshift, crop, output multiplier, and the emulated-fftshift configuration — equals the weighted defining sum Σ f_j w χ(−u_k x_j) for all N ≤ M, Mo ≤ M, spacings, offsets and shifts under the grid-consistency predicate (1-D, and 2-D via a proved separability lemma; Complex.exp instances); "
+              "the matrix transform's two products equal the 2-D sum (both weight branches, conjugate-transposed backward); Bluestein chirp-z = its defining sum for all n, m, nfft ≥ n+m−1; zoom-FFT axis bookkeeping correct for every tensor rank and dimension (old `-i` code refuted); the padded sizes the old code reported for N=87,q=2.5 are inconsistent for every δ. "
+              "Tie: reported sizes/cut-outs/grids/weights vs the model's plan, modelled pipeline on impulses vs the real transforms; oracle: every implementation and switch combination vs a longdouble defining sum."),
+        note=TRUST + " The FFT kernel is assumed to be the DFT, BLAS gemm the matrix product. No theorem for make_fourier_transform's selection logic, 2-D backward, or n ≥ 3 dimensions (oracle only). Rounding bounded by 1e-9 (complex64: 2e-4) on sampled inputs.",
+        technique="Lean 4 proof (finite-sum reindexing over periodic characters, separability, Bluestein identity) + plan correspondence and defining-sum oracle on all implementations",
+        design='6/C01'),
+    'C02': dict(
+        text=("Lean theorems: forward and backward defining sums are adjoint w.r.t. the weighted inner products for arbitrary point sets and dimensions, and the FFT pipeline inherits it; on a full pair (Mo = M) backward∘forward = id (root-of-unity orthogonality) and Parseval holds; on a cropped FFT grid output energy ≤ input energy. Oracle: adjointness for every implementation and grid pair, round trip and Parseval on full pairs, cropped energy, FourierFilter adjointness on the real code."),
+        note=TRUST + " Inherits C01's model and tie. FourierFilter adjointness is proved abstractly in C04 (filter_adjoint) and checked numerically here.",
+        technique="Lean 4 proof (sum exchange, geometric-sum orthogonality) + numeric adjoint/inverse/energy oracle on all implementations",
+        design='6/C02'),
+
     'C19': dict(
         text=("PARTIAL by nature. Proved in Lean: two interpreters of a small array-program language over exact rationals, mirroring the ndarray-subclass route and the wrapper route of hcipy's two Field implementations (structurally different stores), give the same values after every statement and the same read-outs of all variables and aliases for EVERY program (with the stated side condition on `.shaped`, shown necessary by a counterexample); "
               "elementwise results carry the grid of the leftmost Field operand; in-place updates write through to aliases and leave everything else unchanged; copy and pickle return exactly the operand. NOT proved: that NumPy's dispatch behaves like the interpreters, and anything about the Fourier switches/FFT backends — those are differential only: four value streams per random program (plain ndarray, old-style, new-style, model) and 20 library pipelines under all 64 configuration combinations."),
